@@ -299,6 +299,75 @@ Definition h_op_sort_flat (w : hworld) (ti p : nat) (k : keyt) (reverse : bool) 
 Definition h_relabel (h : hstate) (group : list nat) (g : info -> info) : hstate :=
   fold_left (fun a m => set_inf a m (g (hinf a m))) group h.
 
+(* `for sibling in n._parent._children: if sibling._data_id == new_data_id: raise` *)
+Definition h_sib_clash (h : hstate) (e : did) (m : nat) : bool :=
+  match hpar h m with
+  | Some p => existsb (fun x => did_eqb (hdid h x) e) (hch h p)
+  | None => false
+  end.
+
+Definition h_set_data_core (w : hworld) (ti : nat) (h : hstate) (n : nat)
+           (new_data : option dat) (new_did : option did) (with_clones : option bool) : res * hworld :=
+  let cur := idx_get (hdid h n) (hidx h) in
+  let has_clones := Nat.ltb 1 (length cur) in
+  let wc := match with_clones with Some true => true | _ => false end in
+  if has_clones && (match with_clones with None => true | _ => false end)
+  then (Err EAmbiguous, w)
+  else
+    let setd := fun inf => match new_data with Some x => set_dat_i x inf | None => inf end in
+    match new_did with
+    | Some e =>
+        let group := if has_clones && wc then cur else [n] in
+        if existsb (h_sib_clash h e) group then (Err EUnique, w)
+        else
+          let h' := h_relabel h group (fun inf => set_did_i e (setd inf)) in      (* n._data_id = ..; n._data = .. *)
+          let ix' := if has_clones && wc then idx_move_group (hdid h n) e cur (hidx h)
+                     else idx_add e n (idx_del (hdid h n) n (hidx h)) in
+          (Ok [], h_put w ti (set_regidx h' (hreg h) ix'))
+    | None =>
+        match new_data with
+        | Some _ =>
+            let group := if wc then cur else [n] in
+            (Ok [], h_put w ti (h_relabel h group setd))
+        | None => (Ok [], w)
+        end
+    end.
+
+Definition h_op_set_data (w : hworld) (ti n : nat) (d : option dat) (explicit : option did)
+           (with_clones : option bool) : res * hworld :=
+  match h_get w ti with
+  | None => (Err EModel, w)
+  | Some h =>
+      if negb (h_live h n) then (Err EModel, w)
+      else
+        let inf := hinf h n in
+        let new_data := match d with
+                        | Some x => if Z.eqb (d_obj x) (i_obj inf) then None else Some x
+                        | None => None
+                        end in
+        match d, explicit with
+        | None, None => (Err EValue, w)
+        | _, _ =>
+            match (match new_data, explicit with
+                   | Some x, None => option_map Some (calc_id (hcalc h) x)
+                   | _, e => Some e
+                   end) with
+            | None => (Err ECrash, w)
+            | Some did' =>
+                h_set_data_core w ti h n new_data
+                  (match did' with Some e => if did_eqb e (i_did inf) then None else Some e | None => None end) with_clones
+            end
+        end
+  end.
+
+Definition h_op_rename (w : hworld) (ti n : nat) (d : dat) : res * hworld :=
+  match h_get w ti with
+  | None => (Err EModel, w)
+  | Some h => if negb (h_live h n) then (Err EModel, w)
+              else if i_isstr (hinf h n) then h_op_set_data w ti n (Some d) None None
+              else (Err EValue, w)
+  end.
+
 Definition h_op_meta (w : hworld) (ti n : nat) (o : metaop) : res * hworld :=
   match h_get w ti with
   | None => (Err EModel, w)
@@ -382,6 +451,8 @@ Definition modelled_heap (o : op) : bool :=
   | ONewTree _ _ => true
   | ODel _ _ => true
   | OShort _ _ _ _ _ _ => true
+  | OSetData _ _ _ _ _ => true
+  | ORename _ _ _ => true
   | _ => false
   end.
 
@@ -397,6 +468,8 @@ Definition h_step (w : hworld) (o : op) : res * hworld :=
   | ONewTree ty c => (Ok [length (htrees w)], HW (htrees w ++ [h_empty ty c]) (hnext w))
   | ODel ti k => h_op_del w ti k
   | OShort ti n how d e k => h_op_shortcut w ti n how d e k
+  | OSetData ti n d e wc => h_op_set_data w ti n d e wc
+  | ORename ti n d => h_op_rename w ti n d
   | _ => (Err EModel, w)
   end.
 
